@@ -298,11 +298,16 @@ PROPS = {
     "C12": {
         "run": ["EvalProps"], "functional": False,
         "n": {"quick": 300, "thorough": 6000},
-        "level_text": "Theorems: the timer branch of the wait is taken only after every armed timer has fired (any order), a control request wakes the machine without a timer; partial firings leave it waiting.  The remaining clauses are decided by trace equality between the state-machine model (Model/SM.v, whose traces are the subject of the "
-                      "monitor theorems of C02/C05/C06/C07) and the real state machine on the property's projection of the trace: policy questions, schedule announcements, every timer armed (kind and value), state events, requests (pings), reboot.",
-        "level_note": "PARTIAL at the level of theorems (stated in Props/C12.v): 'ask, announce, arm exactly' and the reboot-wait rules are not yet theorems.  Model = code is sampled on scripted runs.",
-        "diff_meaning": "The implementation's projection of the trace differs from the model's on this scripted environment (or it panicked / hung).",
-        "rule": "random scripts with all timing shapes, minimum wait present/absent, firing orders and proper subsets, control requests, reboot waits with pings and re-asked reboot questions; distinct = distinct implementation trace; non-trivial = at least one request or completed check",
+        "level_text": "Theorems: (1) the timer branch of the wait is taken only after every armed timer has fired (any order), a control request wakes the machine without a timer, partial firings leave it waiting "
+                      "(theorems about the model's select: firings are environment inputs, invisible to a trace monitor); (2) C12_arming_monitor_accepts_every_model_trace: for every script and entry point the "
+                      "model's trace is accepted by the executable monitor step12: after every answer of the policy to the next-time question the very next actions are the schedule announcement carrying that answer, "
+                      "then a timer for exactly the minimum wait when there is one, then a timer for exactly the time bound; no time-bound timer is armed otherwise; every later schedule announcement still carries "
+                      "the latest answer; the same for the ping waits while waiting for the reboot.  Model tied to the code by trace equality on scripted runs (policy questions, schedule announcements, every "
+                      "timer armed with kind and value, state events, pings, reboot); the monitor also runs on every implementation trace.",
+        "level_note": "Proved for the model, unbounded, except: 'the reboot question is re-asked only when its 30-minute timer fires or an on-demand request arrives' is decided by trace equality (and, for the "
+                      "on-demand half, by the run-time rule of C11's monitor), not by a theorem.  Model = code is sampled on scripted runs.",
+        "diff_meaning": "The arming monitor rejects the implementation's trace (code 2), or the policy/schedule/timer/state/ping/reboot projection differs from the model's.",
+        "rule": "random scripts with all timing shapes, minimum wait present/absent, firing orders and proper subsets, control requests, plus 35% directed wait-for-reboot histories (install succeeds, reboot refused 3-8 times, pings with and without minimum wait, reboot-timer firings, control requests of both kinds); distinct = distinct implementation trace; non-trivial = at least one request or completed check",
         "assumptions": ["harness trait implementations follow the trait contracts", "Storage trait contract: writes cached until commit, commit atomic"],
         "trusted_base": COMMON_TB + ["modelled, not verified: state_machine.rs, update_check.rs, builder.rs, app_set.rs, common.rs"],
     },
